@@ -156,8 +156,11 @@ def run(ctx):
     for blocks, kd in expanded:
         df = represent(table_from_blocks(blocks, categorical=rng.random() < 0.5), blocks, kd)
         ctx.dist["bin-table representation:" + kd] += 1
+        df0 = df.copy(deep=True)
         bs = get_binsize(df)
         cs = get_chromsizes(df)
+        if not (df.equals(df0) and df.index.equals(df0.index) and list(df.columns) == list(df0.columns) and df.dtypes.equals(df0.dtypes)):
+            ctx.fail({"fn": "get_binsize/get_chromsizes", "blocks": blocks, "representation": kd}, {"detail": "the caller's bin table was modified"}, None)
         names = names_for(len(blocks))
         impl2.append((None if bs is None else int(bs),
                       [(names.index(str(n)), int(l)) for n, l in zip(cs.index, cs.values)]))
